@@ -53,6 +53,14 @@ func variants() []variant {
 			// same file: render() names files after the controller, so both controllers must share a name prefix file -> use File of methods instead
 			u.Controllers = append([]scen.Controller{first}, u.Controllers...)
 		}},
+		{"doc-comments-end-with-a-multi-line-block-comment", func(u *scen.Unit, id string) {
+			// a doc comment group may end with a /* ... */ block spanning several lines: ranges over the doc comment end
+			// at the block's last line, not on its first
+			c := &u.Controllers[len(u.Controllers)-1]
+			c.Extra = append(c.Extra, "/* trailing notes of the controller,", "   which run over", "   three lines */")
+			m := &c.Methods[0]
+			m.Extra = append(m.Extra, "/* trailing notes of the method", "   over two lines */")
+		}},
 		{"method-in-other-file", func(u *scen.Unit, id string) {
 			u.Controllers[0].Methods[0].File = "zz_methods.go"
 		}},
